@@ -291,6 +291,9 @@ def run(ck, F):
     for fid, loc, inst, ok, msg in arena.footprint(F):
         ck.check(R8, inst, ok, msg, loc=loc, fn=fid)
 
+    import c03 as _c03
+    _c03.arena_bounds(ck, F, prefix='C19')
+
     # the pool chain after an allocation: nothing that was reachable is lost, everything new is reachable
     R7 = ck.rule('C19.chain-preserved', 'on every path of arena::allocate (and of the constructor) the chain mem -> previous -> ... '
                  'reaches every block just obtained from operator new, still reaches the old head, and ends in the old tail: '
